@@ -58,7 +58,8 @@ def argCatalogue : List String :=
    "C:\\temp\\", "\\", "x\\\\", "\"", "\\\"", "end\\\\\\"]
 
 def genForeignAttr : G Attr := do
-  let d ← pickG ["cs::attr", "cs::readonly", "foo::bar", "rust::x::y", "cs::identifier"]
+  -- inside `[...]` the lexer does not look identifiers up in the keyword table: directive segments may be spelled like keywords
+  let d ← pickG ["cs::attr", "cs::readonly", "foo::bar", "rust::x::y", "cs::identifier", "cs::struct", "rust::module::tag", "custom::string", "x::Sequence"]
   let n ← below 3
   let mut args := []
   for _ in [0:n] do args := args ++ [← pickG argCatalogue]
